@@ -208,6 +208,7 @@ class Interp:
                 raise Unrecognised("parameter pattern did not match in %s" % fid)
         env["$consts"] = consts or {}
         env["$fn"] = fid
+        env["$mut"] = {}
         self.depth += 1
         try:
             return self.ev(h["body"], env)
@@ -682,9 +683,9 @@ class Interp:
     def store(self, lhs, v, env):
         if lhs.get("k") == "path" and lhs.get("res") == "local":
             mut = env.get("$mut")
-            if mut is None or lhs["n"] not in mut:
+            if mut is None or (lhs["n"] not in mut and lhs["n"] not in env):
                 raise Unrecognised("assignment to local %s that is not modelled as mutable" % lhs["n"])
-            mut[lhs["n"]] = v
+            mut[lhs["n"]] = v        # shadows the binding for the rest of the function (a re-binding fails closed)
             return
         if lhs.get("k") == "un" and lhs.get("o") == "*":
             r = self.ev(lhs["e"], env)
